@@ -782,6 +782,10 @@ fn decompress_udp(
     *decompressed_len += udp_repr.0.header_len() + payload.len();
     let mut udp = UdpPacket::new_unchecked(&mut buffer[..payload.len() + 8]);
     udp_repr.0.emit_header(&mut udp, udp_payload_len);
+    // Carry the checksum over, so that it is verified like that of any other UDP datagram.
+    if let Some(checksum) = udp_packet.checksum() {
+        udp.set_checksum(checksum);
+    }
     buffer[8..][..payload.len()].copy_from_slice(payload);
     Ok(())
 }
